@@ -110,7 +110,7 @@ func genOpts() gen.Opts {
 
 func drawFor(entries []*gen.Entry) func(t *rapid.T) Case {
 	return func(t *rapid.T) Case {
-		e := entries[rapid.IntRange(0, len(entries)-1).Draw(t, "entry")]
+		e := entries[uniform(t, len(entries))]
 		v := gen.Value(t, e.Type, genOpts())
 		c := Case{Entry: e.Name, Seed: rapid.Uint64().Draw(t, "seed"), live: v}
 		if c.Seed%8 == 0 {
@@ -125,6 +125,25 @@ func drawFor(entries []*gen.Entry) func(t *rapid.T) Case {
 		}
 		return c
 	}
+}
+
+// uniform draws an index in [0, n) from fair coin flips: rapid's integer
+// generators favour small values, which would starve most registry entries.
+func uniform(t *rapid.T, n int) int {
+	x := 0
+	for try := 0; try < 6; try++ {
+		x = 0
+		for b := 1; b < n; b <<= 1 {
+			x <<= 1
+			if rapid.Bool().Draw(t, "u") {
+				x |= 1
+			}
+		}
+		if x < n {
+			return x
+		}
+	}
+	return x % n
 }
 
 func splitmix(x *uint64) uint64 {
@@ -264,7 +283,7 @@ func checkValue(c Case) error {
 	if panicked || err != nil {
 		return stats.Failf(key("encode"), "%s: encoding a generated value failed: %v", e.Name, err)
 	}
-	if limit := e.LimitFor(v); limit > 0 && len(enc) > limit {
+	if limit, bounded := e.LimitFor(v); bounded && len(enc) > limit {
 		// larger than what the library's read function accepts by design: out of domain
 		rec.Case(stats.FP(e.Name, enc), false, "out-of-domain:oversize")
 		return nil
@@ -568,7 +587,7 @@ func derivedType(name string) reflect.Type {
 }
 
 func drawDerived(t *rapid.T) Case {
-	k := derivedKinds[rapid.IntRange(0, len(derivedKinds)-1).Draw(t, "kind")]
+	k := derivedKinds[uniform(t, len(derivedKinds))]
 	o := genOpts()
 	o.Fuel = 24
 	return Case{Entry: k.name, Seed: rapid.Uint64().Draw(t, "seed"), live: gen.Value(t, k.typ, o)}
